@@ -443,6 +443,9 @@ def run(prop, tier, seed, rep, extra_inputs=None):
         import bits_checks
         bits_checks.run_binding(rep, random.Random(seed * 7 + 1))
     inputs = GENERATORS[prop](rng, tier)
+    # whatever the property's own generator aims at: one frame of every shape the decoder distinguishes
+    import bits_checks
+    inputs += [{"bytes": list(b)} for b in bits_checks.shape_frames(random.Random(seed * 13 + 5))]
     if extra_inputs:
         inputs += extra_inputs
     hx = core.build_hx("std")
